@@ -13,6 +13,8 @@ def fr(x):
 
 
 def act_tokens(a):
+    if a[0] == 'spawn':
+        return ' '.join(str(t) for t in a[:3])      # started by Routine.play or by the decorator: the same to the model
     if a[0] == 'yar':
         return f'y {a[1]}'       # YieldAndReset(d) once, the restarted body going on after it = a yield of d
     if a[0] in ('note', 'pseed'):
@@ -230,7 +232,7 @@ class Check(common.Check):
 
     def rule(self):
         return ('programs = trees of 1-6 routines (nesting <=3) with 1-30 yields each, deltas dyadic incl. 0, logs, sends with latency, main.process(tailtime), '
-                'spawns on SystemClock / TempoClocks (tempi 2^k) / AppClock (NRT), tempo changes by the root (`tempo=` and '
+                'spawns (Routine.play or the decorator @routine.run(clock, quant)) on SystemClock / TempoClocks (tempi 2^k) / AppClock (NRT), tempo changes by the root (`tempo=` and '
                 '`etempo`), bodies that raise (logged by the clock) while other routines go on; four '
                 'classes: plain multi-clock, single-clock with tempo changes, multi-clock with tempo changes, '
                 'NRT-only with AppClock; 7% routines pulled with next() from inside a playing routine (they log and play children at the time of the puller), YieldAndReset(d) before a wait / a pause on a TempoClock, 6% unhang/signal of a waiter on a TempoClock at a fractional beat, 6% reset()-while-pending plus tempo change (NRT), 6% children started with SystemClock.sched_abs(logical now + d) under RT lateness (these three judged by the script-only oracle, no model line); 10% pause/resume-without-clock of a routine on a TempoClock (tempo != 1) or AppClock by a controller on another clock; each runs in NRT (main.process) and in RT under virtual time with a '
@@ -456,7 +458,8 @@ class Check(common.Check):
             rts[i] = acts
         for i in range(1, n):
             p = parent[i]
-            rts[p].insert(rng.randrange(len(rts[p]) + 1), ['spawn', i, rng.choice(clocks)])
+            rts[p].insert(rng.randrange(len(rts[p]) + 1),
+                          ['spawn', i, rng.choice(clocks)] + (['deco'] if rng.random() < 0.3 else []))
         if klass in 'BC' and nt:
             for _ in range(rng.randint(1, 3)):
                 tclk = [int(c[1:]) for c in clocks if c[0] == 't'] or list(range(nt))
